@@ -135,3 +135,39 @@ func TestOrderedWriterPutsLandInIssueOrder(t *testing.T) {
 		t.Fatalf("idle writer keeps %d key entries", n)
 	}
 }
+
+// flakyStore fails the first n Deletes.
+type flakyStore struct {
+	gateStore
+	failDeletes int
+}
+
+func (f *flakyStore) Delete(ctx context.Context, ns, key string) error {
+	f.mu.Lock()
+	if f.failDeletes > 0 {
+		f.failDeletes--
+		f.mu.Unlock()
+		return context.DeadlineExceeded
+	}
+	f.mu.Unlock()
+	return f.gateStore.Delete(ctx, ns, key)
+}
+
+func TestOrderedWriterDeleteEventuallyRetries(t *testing.T) {
+	f := &flakyStore{gateStore: *newGateStore(), failDeletes: 2}
+	f.data["ns/s1"] = "v1"
+	w := NewOrderedWriter(f)
+	if err := w.DeleteEventually(context.Background(), "ns", "s1", func(err error) { t.Errorf("gave up: %v", err) }); err == nil {
+		t.Fatal("first attempt was expected to fail")
+	}
+	deadline := time.Now().Add(3 * time.Second)
+	for {
+		if _, ok := f.get("ns/s1"); !ok {
+			return
+		}
+		if time.Now().After(deadline) {
+			t.Fatal("key still present: the failed delete was not retried")
+		}
+		time.Sleep(5 * time.Millisecond)
+	}
+}
